@@ -41,6 +41,26 @@ pub struct Case {
     /// instead of the editor's key handler through hook H5
     #[serde(default)]
     pub tty: bool,
+    /// the history holds this many further entries (`#0`, `#1`, ...) before `history`: a list that
+    /// has grown (past a power of two, a round number, 2^16) before the session begins
+    #[serde(default)]
+    pub grow: u32,
+}
+
+/// Sizes a history list may have grown to: around powers of two, round numbers and 2^16.
+pub const GROWN: &[u32] = &[255, 256, 257, 999, 1000, 1001, 1023, 1024, 1025, 4095, 4096, 4097, 9999, 10_000, 10_001, 65_535, 65_536, 65_537];
+
+fn full_history(c: &Case) -> Vec<String> {
+    (0..c.grow).map(|i| format!("#{i}")).chain(c.history.iter().cloned()).collect()
+}
+
+fn show_history(c: &Case) -> String {
+    let h: Vec<String> = c.history.iter().map(|h| if h.len() > 60 { format!("<{} characters>", h.chars().count()) } else { format!("{h:?}") }).collect();
+    if c.grow > 0 {
+        format!("[\"#0\", ..., \"#{}\", {}]", c.grow - 1, h.join(", "))
+    } else {
+        format!("[{}]", h.join(", "))
+    }
 }
 
 fn to_lace(k: K) -> VerifKey {
@@ -149,7 +169,11 @@ fn key_bytes(k: K) -> Vec<u8> {
 fn judge_tty(c: &Case) -> Obs {
     use crate::cli::{self, TempDir};
     let mut obs = Obs::default();
-    obs.key = hash_of(&("tty", &c.history, &c.keys));
+    obs.key = hash_of(&("tty", &c.history, &c.keys, c.grow));
+    let history = full_history(c);
+    if c.grow > 0 {
+        obs.label("history-of-hundreds-or-thousands-of-entries");
+    }
     obs.label("real-terminal");
     let harmless = |ch: char| !ch.is_control() && !ch.is_ascii_alphabetic() && ch != '^' && ch != ':' && ch != '-';
     if c.keys.iter().any(|k| matches!(k, K::Ch(ch) if !harmless(*ch))) || c.history.iter().any(|h| h.chars().any(|ch| !harmless(ch)) || h.contains('\n')) {
@@ -160,9 +184,9 @@ fn judge_tty(c: &Case) -> Obs {
     all.push(K::Enter);
     all.extend("exit".chars().map(K::Ch));
     all.push(K::Enter);
-    obs.show = Some(format!("on a pseudo-terminal; history {:?}; keys: {}", c.history.iter().map(|h| if h.len() > 60 { format!("<{} characters>", h.chars().count()) } else { h.clone() }).collect::<Vec<_>>(), show(&all)));
+    obs.show = Some(format!("on a pseudo-terminal; history {}; keys: {}", show_history(c), show(&all)));
     // reference
-    let mut model = Edit::new(c.history.clone());
+    let mut model = Edit::new(history.clone());
     model.begin_line();
     for k in &all {
         let multibyte = model.current().iter().any(|ch| ch.len_utf8() > 1);
@@ -187,7 +211,7 @@ fn judge_tty(c: &Case) -> Obs {
     let cache = dir.path().join("cache");
     std::fs::create_dir_all(&cache).unwrap();
     let mut file = String::new();
-    for h in &c.history {
+    for h in &history {
         file.push_str(h);
         file.push('\n');
     }
@@ -234,11 +258,15 @@ pub fn judge_case(c: &Case) -> Obs {
         return judge_tty(c);
     }
     let mut obs = Obs::default();
-    obs.key = hash_of(&(&c.history, &c.keys));
-    obs.show = Some(format!("history {:?}; keys: {}", c.history, show(&c.keys)));
+    obs.key = hash_of(&(&c.history, &c.keys, c.grow));
+    obs.show = Some(format!("history {}; keys: {}", show_history(c), show(&c.keys)));
+    let history = full_history(c);
+    if c.grow > 0 {
+        obs.label("history-of-hundreds-or-thousands-of-entries");
+    }
     // non-trivial: a multi-byte character is in the line while a motion/deletion key is pressed,
     // or a history entry is edited
-    let mut model = Edit::new(c.history.clone());
+    let mut model = Edit::new(history.clone());
     model.begin_line();
     for k in &c.keys {
         let multibyte = model.current().iter().any(|ch| ch.len_utf8() > 1);
@@ -252,8 +280,8 @@ pub fn judge_case(c: &Case) -> Obs {
         }
     }
     for probe in [false, true] {
-        if let Some((sig, msg)) = run_keys(&c.history, &c.keys, probe) {
-            obs.set_fail(sig, format!("{msg}\nhistory {:?}; keys: {}{}", c.history, show(&c.keys), if probe { " 'Q' Enter" } else { " Enter" }));
+        if let Some((sig, msg)) = run_keys(&history, &c.keys, probe) {
+            obs.set_fail(sig, format!("{msg}\nhistory {}; keys: {}{}", show_history(c), show(&c.keys), if probe { " 'Q' Enter" } else { " Enter" }));
             break;
         }
     }
@@ -282,7 +310,7 @@ fn enumerate(ctx: &Ctx, rep: &mut Report, max: usize) {
                 c /= 17;
             }
             for h in histories() {
-                let case = Case { history: h, keys: keys.clone(), tty: false };
+                let case = Case { history: h, keys: keys.clone(), tty: false, grow: 0 };
                 judge_one(ctx, rep, &case, &mut |c| {
                     let mut o = judge_case(c);
                     o.label("enumerated");
@@ -320,7 +348,7 @@ fn enumerate_classes(ctx: &Ctx, rep: &mut Report, max: usize) {
                 keys.push(keys2[c % keys2.len()]);
                 c /= keys2.len();
             }
-            let case = Case { history: vec![], keys, tty: false };
+            let case = Case { history: vec![], keys, tty: false, grow: 0 };
             judge_one(ctx, rep, &case, &mut |c| {
                 let mut o = judge_case(c);
                 o.label("enumerated-character-classes");
@@ -344,7 +372,16 @@ fn random_cases() -> impl Strategy<Value = Case> {
         3 => prop::sample::select(vec![K::CLeft, K::CRight, K::Up, K::Down, K::Bs, K::Del]),
     ];
     let hist = prop::collection::vec("[a-z é😀+;]{0,8}", 0..5);
-    (hist, prop::collection::vec(key, 5..60)).prop_map(|(history, keys)| Case { history, keys, tty: false })
+    // (an eighth of the sessions start from a history that has grown; the two largest sizes rarely)
+    let grow = crate::pick![14 => Just(0u32), 2 => (0usize..GROWN.len() - 3).prop_map(|i| GROWN[i]), 1 => (0usize..GROWN.len()).prop_map(|i| GROWN[i])];
+    // in those, lines are entered and recalled more often
+    (hist, prop::collection::vec(key, 5..60), grow, prop::collection::vec(crate::pick![2 => Just(K::Enter), 2 => Just(K::Up), 1 => Just(K::Down), 2 => Just(K::Ch('k'))], 4..12)).prop_map(|(history, mut keys, grow, more)| {
+        if grow > 0 {
+            keys.truncate(20);
+            keys.extend(more);
+        }
+        Case { history, keys, tty: false, grow }
+    })
 }
 
 /// Sessions for the real terminal: characters that cannot spell a command, all motion keys,
@@ -373,8 +410,11 @@ fn tty_cases() -> impl Strategy<Value = Case> {
     );
     crate::pick![12 => short.boxed(), 1 => long.boxed()].prop_map(|(history, keys)| {
         // (blank entries are never written by the editor itself)
-        let history = history.into_iter().filter(|h| !h.trim().is_empty()).collect();
-        Case { history, keys, tty: true }
+        let history: Vec<String> = history.into_iter().filter(|h| !h.trim().is_empty()).collect();
+        // a tenth of the short sessions start from a history file of hundreds or thousands of lines
+        let sel = hash_of(&(&history, &keys));
+        let grow = if sel % 10 == 0 && history.iter().all(|h| h.len() < 100) { GROWN[(sel / 10 % (GROWN.len() as u64 - 6)) as usize] } else { 0 };
+        Case { history, keys, tty: true, grow }
     })
 }
 
@@ -383,9 +423,9 @@ impl Prop for C20 {
         "C20"
     }
     fn rule(&self) -> &'static str {
-        "ALL key sequences of length <= 4 (quick) / <= 5 (thorough) over {a, Z, 7, space, +, ;, é (2 bytes), 😀 (4 bytes), Backspace, Delete, Left, Right, Ctrl+Left, Ctrl+Right, Up, Down, Enter}, from an empty history and from a 3-entry history (ASCII, multi-byte, punctuation), each run twice: followed by Enter, and followed by the probe 'Q' Enter (which makes the cursor position visible in the submitted text); plus ALL sequences of length <= 4 / <= 5 over {U+00A0, U+3000, Arabic-Indic digit, +, a, space, Ctrl+Left, Ctrl+Right, Left, Backspace, Delete}; plus random sequences of 5-59 keys (more characters: non-ASCII white space, digits, letters, marks and format characters, arbitrary code points, control characters; generated histories). \
+        "ALL key sequences of length <= 4 (quick) / <= 5 (thorough) over {a, Z, 7, space, +, ;, é (2 bytes), 😀 (4 bytes), Backspace, Delete, Left, Right, Ctrl+Left, Ctrl+Right, Up, Down, Enter}, from an empty history and from a 3-entry history (ASCII, multi-byte, punctuation), each run twice: followed by Enter, and followed by the probe 'Q' Enter (which makes the cursor position visible in the submitted text); plus ALL sequences of length <= 4 / <= 5 over {U+00A0, U+3000, Arabic-Indic digit, +, a, space, Ctrl+Left, Ctrl+Right, Left, Backspace, Delete}; plus random sequences of 5-59 keys (more characters: non-ASCII white space, digits, letters, marks and format characters, arbitrary code points, control characters; generated histories; an eighth of them start from a history that has grown to 255..65,537 entries - around powers of two, round numbers and 2^16 - and enter and recall lines more often). \
          Oracle RefEdit (Vec<char> line, cursor in characters, Vim w/b word motions in characters, history list and index): after every key no panic and 0 <= cursor <= characters of the edited line; whenever Enter submits, the submitted text equals the reference editor's, and blank lines are not submitted; multi-line sessions continue through the history push. \
-         Plus the whole interactive path: `lace debug` on a pseudo-terminal with a throw-away history file (0-3 entries, rarely one of 65,000-70,000 characters), 3-39 keys typed as the byte sequences a terminal sends (characters that cannot spell a command, all motion / deletion / history keys, Enter), ended by typing `exit`: the history file must end up holding exactly the lines RefEdit submits, and the process must not crash. Non-trivial: the line holds a multi-byte character while a motion or deletion key is pressed, or a history entry is edited. Distinct = hash(history, keys)."
+         Plus the whole interactive path: `lace debug` on a pseudo-terminal with a throw-away history file (0-3 entries, rarely one of 65,000-70,000 characters, a tenth of them preceded by 255..10,001 further lines), 3-39 keys typed as the byte sequences a terminal sends (characters that cannot spell a command, all motion / deletion / history keys, Enter), ended by typing `exit`: the history file must end up holding exactly the lines RefEdit submits, and the process must not crash. Non-trivial: the line holds a multi-byte character while a motion or deletion key is pressed, or a history entry is edited. Distinct = hash(history, keys)."
     }
     fn assumptions(&self) -> Vec<String> {
         vec![
